@@ -37,6 +37,17 @@ Theorem C08_lt_needs_canonical_refuted :
 Proof. exact fc_lt_needs_canonical_refuted. Qed.
 Print Assumptions C08_lt_needs_canonical_refuted.
 
+(* finding D81: close_by_one_objectwise (a public mining function) yields FormalConcepts whose extent
+   tuple is in discovery order, e.g. (1, 0); for such concepts of ONE context the laws fail: the two
+   concepts below have the same extent as a set and are <= each other, yet they are not == *)
+Theorem C08_order_laws_need_canonical_refuted :
+  fc_comparable c02 c20 /\ NoDup (fc_extent_i c02) /\ NoDup (fc_extent_i c20) /\
+  spec_eq (fc_extent_i c02) (fc_extent_i c20) = true /\
+  fc_le c02 c20 = COk true /\ fc_le c20 c02 = COk true /\ fc_eq c02 c20 = COk false /\
+  fc_ne c02 c20 = COk true.
+Proof. exact fc_order_laws_need_canonical_refuted. Qed.
+Print Assumptions C08_order_laws_need_canonical_refuted.
+
 (* a == b is equality of the extents as sets, and equal concepts hash equally *)
 Theorem C08_eq_is_ext_equality : forall a b,
   fc_comparable a b -> increasing (fc_extent_i a) -> increasing (fc_extent_i b) ->
